@@ -164,3 +164,40 @@ def make_deque(sched):
             sched.yield_point('popleft', None)
             return collections.deque.popleft(self)
     return InstrDeque
+
+
+def instrument(module, sc):
+    """Replaces, in [module], whatever names hold the lock class and the deque class - "from threading import RLock" or
+    "import threading", "from collections import deque" or "import collections" - by the scheduling-point versions.
+    Returns an undo function."""
+    import types
+    saved = []
+    ideque = make_deque(sc)
+    for name, obj in list(vars(module).items()):
+        if obj is threading.RLock:
+            saved.append((name, obj))
+            setattr(module, name, lambda *a, **k: InstrLock(sc))
+        elif obj is collections.deque:
+            saved.append((name, obj))
+            setattr(module, name, ideque)
+        elif obj is threading:
+            saved.append((name, obj))
+            ns = types.SimpleNamespace(**{k: v for k, v in vars(threading).items() if not k.startswith('__')})
+            ns.RLock = lambda *a, **k: InstrLock(sc)
+            setattr(module, name, ns)
+        elif obj is collections:
+            saved.append((name, obj))
+            ns = types.SimpleNamespace(**{k: v for k, v in vars(collections).items() if not k.startswith('__')})
+            ns.deque = ideque
+            setattr(module, name, ns)
+
+    def undo():
+        for name, obj in saved:
+            setattr(module, name, obj)
+    return undo
+
+
+def find_queue(conn):
+    """the connection's outgoing queue, found by what it is (its only deque attribute), not by its private name"""
+    qs = [v for v in vars(conn).values() if isinstance(v, collections.deque)]
+    return qs[0] if len(qs) == 1 else getattr(conn, '_outgoing_packet_queue')
